@@ -33,6 +33,10 @@ def _single(draw):
                 op['sizes'] = draw(st.lists(st.integers(1, 5), min_size=accum, max_size=accum))
             if bystander:
                 op['by'] = sorted(draw(st.sets(st.integers(0, accum - 1), max_size=accum)))
+            if draw(st.integers(0, 4)) == 0:
+                # (honoured when factors are updated in step()) the batch is discarded with reset_batch() after that many micro-batches -
+                # with a dynamic loss scale the scale changes at that point - and a full set of micro-batches follows
+                op['reset_after'] = draw(st.integers(1, accum))
             ops.append(op)
     pd = draw(st.sampled_from(['float32', 'float32', 'float64']))
     # mixed precision as documented (examples/vision): the forward pass runs inside torch.autocast, usually with a loss scale
@@ -113,7 +117,7 @@ class C04(Prop):
         labels = self._labels(case)
         for i, op in enumerate(case['program']):
             if op['op'] == 'train':
-                bad = ls.train_iter(op['seed'], op.get('sizes'), by=op.get('by', ()))
+                bad = ls.train_iter(op['seed'], op.get('sizes'), op.get('reset_after'), by=op.get('by', ()))
             else:
                 bad = ls.eval_pass(op['seed'])
             # this property owns the factor clauses only; gradients are C01/C05's subject
